@@ -431,10 +431,16 @@ def check(pid, tier, seed):
     corpus = mod.corpus() if hasattr(mod, "corpus") else []
     scripts = corpus + scripts
     timeout_s = 900 if tier == "thorough" else 240
+    t_run = time.time()
     impl_obs, hangs = run_sharded(impl, scripts, timeout_s, "impl")
+    t_impl = time.time() - t_run
+    t_run = time.time()
     model_obs, mhangs = run_sharded(model, scripts, timeout_s, "model")
+    t_model = time.time() - t_run
+    log("ran %d scripts: implementation %.1fs, model %.1fs" % (len(scripts), t_impl, t_model))
 
     project = getattr(mod, "project", default_project)
+    project_all = getattr(mod, "project_all", None)
     disagreements = []
     oracle_failures = []
     known_seen = {}
@@ -473,6 +479,10 @@ def check(pid, tier, seed):
             continue
         a = truncate_at_panic(io)
         b = truncate_at_panic(mo)
+        if project_all is not None:
+            # whole-script projection (needed when what is compared depends on earlier observations)
+            a = project_all(s, a)
+            b = project_all(s, b)
         for i in range(max(len(a), len(b))):
             la = project(s, i, a[i]) if i < len(a) else "<missing>"
             lb = project(s, i, b[i]) if i < len(b) else "<missing>"
